@@ -141,6 +141,12 @@ for loader in YAMLLOADERS:
     yaml.add_constructor('!ufunc', numpy_ufunc_constructor, Loader=loader)
 
 
+# other numpy functions (np.mean, np.linalg.norm, ...) are not plain python
+# functions as of numpy 1.25, but are saved by name like them
+yaml.add_representer(
+    type(np.mean), yaml.representer.Representer.represent_name)
+
+
 def class_representer(dumper, data):
     return dumper.represent_scalar('!class', "{0}.{1}".format(data.__module__,
                                                               data.__name__))
